@@ -46,8 +46,12 @@ ObsOK(o, s) ==
   /\ \A i \in DOMAIN o.atkprobe : LET q == o.atkprobe[i] IN
         (q[2] = 0 /\ ~\E p \in s.atkById : p[1] = q[1]) \/ (<<q[1], q[2]>> \in s.atkById)
 
+RECURSIVE AddAll(_,_,_)
+AddAll(s, as, k) == IF k > Len(as) THEN s
+                    ELSE AddAll(DoAddAttacker(s, as[k].h, as[k].id, as[k].name, Range(as[k].entry), Range(as[k].reached)), as, k + 1)
 Eff(e) ==
   CASE e.op = "Install"        -> SlotFromObs(e.obs)
+    [] e.op = "AttachAttackers" -> AddAll(S0, e.atks, 1)
     [] e.op = "AddNode"        -> DoAddNode(S0, e.h, e.kind, e.id)
     [] e.op = "RemoveNode"     -> DoRemove(S0, {e.h})
     [] e.op = "Prune"          -> DoRemove(S0, Prunable(S0))
@@ -60,6 +64,10 @@ Eff(e) ==
 \* events outside the domain GraphSM specifies for trace validation
 OutOfDomain(e) ==
   \/ e.op = "Other"
+  \* a graph assembled by hand (fields written directly) that is not consistent to begin with: nothing to say about it
+  \/ e.op = "Install" /\ ~(SlotOK(SlotFromObs(e.obs)) /\ ObsOK(e.obs, SlotFromObs(e.obs)))
+  \/ e.op = "AddNode" /\ e.preset                 \* a node that already carries edges or compromise marks
+  \/ e.op = "AttachAttackers" /\ \E k \in DOMAIN e.atks : e.atks[k].h \in AtkHs(S0) \/ e.atks[k].id \in GAtkIds(S0)
   \/ e.res # "ok"
   \/ e.op = "AddNode" /\ (e.h \in NodeHs(S0) \/ e.id \in NodeIds(S0))
   \/ e.op = "RemoveNode" /\ e.h \notin NodeHs(S0)
